@@ -53,8 +53,9 @@ Next ==
              Set(Frame(11, 2, 0, B(12, 1) \o FlattenSeq([e \in 1..k |-> << 0, 0, BusId(e, m), 16 >> \o << 0, 1, e, 2 >> \o << 0, 0, 0, e >>]) \o B(tail, 3)),
                  [k |-> k, m |-> m])
        \/ mode = "bus" /\ \E n \in 1..11 : Set(Frame(11, 2, 0, B(n, 1)), [k |-> 0, m |-> 0])
-       \/ mode = "cm" /\ \E n \in 1..46, sv \in {<< 1, 97, 22, 225 >>, << 255, 255, 255, 255 >>, << 0, 0, 0, 0 >>} :
-             Set(Frame(12, 1, 0, SubSeq(<< 12, 1, 4, 0, 0, 24, 0, 67 >> \o sv \o << 0, 20, 7, 10, 3, 3 >> \o B(28, 9), 1, n)),
+       \/ mode = "cm" /\ \E n \in 1..46, sv \in {<< 1, 97, 22, 225 >>, << 255, 255, 255, 255 >>, << 0, 0, 0, 0 >>}, vdl \in {24, 0, 5, 6, 23} :
+             (* vdl: the declared vendor data length; the 36 byte structure is needed whatever it says (round8a-2) *)
+             Set(Frame(12, 1, 0, SubSeq(<< 12, 1, 4, 0, 0, vdl, 0, 67 >> \o sv \o << 0, 20, 7, 10, 3, 3 >> \o B(28, 9), 1, n)),
                  [n |-> n, sv |-> sv])
        (* status messages do not use the data type field: whatever it holds (but the reserved 0xFF00), they convert (round7c-4) *)
        \/ mode = "statusdt" /\ \E dt \in {0, 1, 2, 255, 256, 511, 4660, 65279, 65281, 65535} :
